@@ -3,11 +3,13 @@
 
    norm = exactly the equivalences the property allows:
      - alias domain "ai.onnx" -> "" (node domain);
-     - opset-import / value-info / metadata entries may be reordered (sorted by key here; the same for the
-       other string-keyed entry lists: external_data, quant_parameter_tensor_names, and the
-       quantization_annotation list, which is keyed by tensor_name — reading recorded in c02.py);
-     - value-info is added for initializers; unreferenced value-info is dropped; value-info that
-       repeats a graph input/output (already described there) or carries nothing is dropped;
+     - opset-import / value-info / metadata entries may be reordered: metadata-like entry lists (metadata_props,
+       external_data, quant_parameter_tensor_names) and opset imports are sorted by key; the value-info and
+       quantization_annotation lists, which are keyed by value name, are rebuilt in an order fixed by the graph
+       itself (identical in p and q), keeping every entry of a name, so duplicates stay visible;
+     - value-info is added for initializers (a missing entry, or the missing type/shape of an existing entry,
+       comes from the tensor); unreferenced value-info is dropped; value-info that repeats a graph
+       input/output (already described there) or carries nothing is dropped;
      - trailing unnamed node outputs are trimmed;
      - unset = default-valued optional scalars ("" for strings, 0 for integers/enums).
    Presence that the implementation must preserve is kept: oneof members (dim value/param/unset, type
